@@ -234,4 +234,44 @@ def run(chk, F, tier):
                               % b.id.split("::")[-1], b.loc(st[3] if len(st) > 3 else None),
                               sample={"rule": "R40e", "site": b.id.split("::")[-1], "verdict": "escape-aware scanner"})
     chk.floor("TkString productions in the doc lexer", nstr, 2)
+    # R40f: the declared names are the reported names
+    chk.rule("R40f", "write_class / write_class_extends / write_alias_header write the type name they are given verbatim: ConvertResult.root_type_name is "
+                     "built from the same raw name, so any rewriting on the way to the text makes the reported root type undeclared")
+    nnm = 0
+    for fn in ("write_class", "write_class_extends", "write_alias_header"):
+        b = F.bodies.get(CR + "::lua_emitter::EmmyLuaEmitter::" + fn)
+        if b is None:
+            raise RuleBroken("EmmyLuaEmitter::%s not found" % fn)
+        str_params = {i_ for i_ in range(1, b.argc + 1) if b.local_ty_str(i_) == "&str"}
+        for bb, c in b.calls():
+            if not name(c).endswith(("Argument::<'_>::new_display", "Argument::new_display")) or not c["a"]:
+                continue
+            l = dataflow.operand_local(c["a"][0])
+
+            def deep(loc, depth=0):
+                out = set()
+                for r in (dataflow.roots(b, loc) if loc is not None else ()):
+                    if r[0] == "place" and depth < 5 and r[2] and isinstance(r[2][0], (list, tuple)) and r[2][0][0] == "f":
+                        ds = dataflow.def_sites(b).get(r[1], [])
+                        if ds and all(d[0] == "stmt" and d[3][0] == "agg" and d[3][1] == "tuple" for d in ds):
+                            for d in ds:
+                                ops = d[3][4]
+                                if r[2][0][1] < len(ops):
+                                    out |= deep(dataflow.operand_local(ops[r[2][0][1]]), depth + 1)
+                            continue
+                    out.add(r)
+                return out
+            rs = deep(l)
+            # only the string-valued placeholders matter (the `(file)` marker is a constant)
+            calls = [r for r in rs if r[0] == "call" and not name(b.blocks[r[1]][2][1]).endswith(("Deref>::deref", "::as_str", "::as_ref"))]
+            from_param = any(r[0] == "arg" and r[1] in str_params for r in rs)
+            if not from_param and not calls:
+                continue
+            nnm += 1
+            chk.check(not calls, "R40f", "%s:name-verbatim#%d" % (fn, nnm),
+                      "%s passes the type name through %s before writing it: the text then declares a different name than the one the converter reports as "
+                      "root type (a kebab-case title such as `app-settings` is valid in annotations and must stay as it is)"
+                      % (fn, [name(b.blocks[r[1]][2][1]).split("::")[-1] for r in calls]), b.loc(c["l"]),
+                      sample={"rule": "R40f", "fn": fn, "verdict": "name parameter written as given"})
+    chk.floor("type-name placeholders in the emitter", nnm, 3)
     chk.explanation = "Panic-surface audit; fmt templates decoded from MIR to find quoted/one-line placeholders, provenance of the written value with sanitiser recognition; who-may-write on the output buffer."
